@@ -10,7 +10,7 @@ def export_all(measured, C=None):
     out["dimension_objects"] = [{"exponents": list(d.exponents), "name": d.name, "symbol": d.symbol}
                                 for d in Dimension._known.values()]
     out["prefixes"] = [{"base": p.base, "exp": C.prefix(p), "name": p.name, "symbol": p.symbol,
-                        "key": [k[0], repr(k[1])]} for k, p in Prefix._known.items()]
+                        "key": [k[0], repr(k[1])] if isinstance(k, tuple) and len(k) == 2 else ["?", repr(k)]} for k, p in Prefix._known.items()]
     out["prefix_by_name"] = {n: C.prefix(p) for n, p in Prefix._by_name.items()}
     out["prefix_by_symbol"] = {s: C.prefix(p) for s, p in Prefix._by_symbol.items()}
     out["env"] = [[C.base_id(u), C.dim(u.dimension), u.name] for u in C.base_units]
